@@ -2,10 +2,10 @@ SPECIFICATION Spec
 CONSTANTS MaxConn = 4
  MaxBin = 1
  Flavours = {"nat", "int", "natreal"}
- MainIdx = {1, 2, 3, 5, 6, 7, 11}
- SideIdx = {4, 10}
+ MainIdx = {1, 2, 3, 5, 6, 7}
+ SideIdx = {4}
  RMainIdx = {1, 2, 5}
- RSideIdx = {3, 4}
+ RSideIdx = {3}
  N = 2
 INVARIANT TypeOK
 INVARIANT WellScoped
